@@ -1,1 +1,24 @@
-//! world simulator (see DESIGN.md §4)
+//! World simulator and property monitors (see DESIGN.md §3–§6).
+pub mod chain;
+pub mod model;
+pub mod monitors;
+pub mod node;
+pub mod run;
+pub mod sim;
+pub mod taps;
+pub mod wire;
+
+/// Make every `std` hash map in the process (LDK uses `RandomState` in production builds)
+/// deterministic: std asks the OS for hash keys through the `getrandom` symbol; defining it here
+/// makes runs a pure function of the seed without touching the library under test.
+/// Call `force_link()` from the binary so that the symbol is kept.
+#[no_mangle]
+pub unsafe extern "C" fn getrandom(buf: *mut u8, len: usize, _flags: u32) -> isize {
+	for i in 0..len {
+		*buf.add(i) = 0x5a ^ (i as u8).wrapping_mul(31);
+	}
+	len as isize
+}
+pub fn force_link() -> usize {
+	getrandom as *const () as usize
+}
